@@ -204,6 +204,8 @@ class C22(Property):
         elif (obs["status"] == "ok" and cls == "remote->remote" and not case["src_is_dir"] and not case["dst_exists_dir"]
               and case["src_name"] != case["dst_name"] and len(obs["diff"]) == 1 and "True) != ('f'" in obs["diff"][0] and "False)" in obs["diff"][0]):
             ctx.fail("transfer:remote->remote:single-file-renamed:tee-loses-exec-bit", detail, replay)
+        elif (obs["status"] == "ok" and obs["diff"] and route.startswith("local->local") and case["writable"] and case["dst_exists_dir"] and case["src_is_dir"]):
+            ctx.fail("transfer:local->local:writable-directory-into-existing-directory:contents-merged-into-dst", detail, replay)
         elif ok_tree and not registered:
             ctx.fail(f"transfer:{route}:{flags}:destination-not-registered-as-available", detail, replay)
         else:
